@@ -28,7 +28,7 @@ func init() {
 		ID:    "C01",
 		Level: "exploration",
 		Rule: "E1 bounded-exhaustive enumeration: every bitmap of B(n,0) ∪ B1(m) (≤n words over the 12-word core alphabet; ≤m words with exactly one word from the wide alphabet of single bits, low-j masks, complements and adjacent pairs) " +
-			"× {IndexRank64 (no option, false, true), IndexRank128} and × every position i × {Rank64 on the plain index, Rank64 on the trailing index, Rank128}; oracle = bit-by-bit running count; plus a length sweep (every length 0..N words × 4 word patterns, all index flavours, all positions) in which every returned index is compared once more after the NEXT bitmap's indexes have been built (an index must not change because another one is built), and 195 bitmaps whose lengths lie within 9 words of every power of two from 2^10 to 2^16 words. " +
+			"× {IndexRank64 (no option, false, true), IndexRank128} and × every position i × {Rank64 on the plain index, Rank64 on the trailing index, Rank128}; oracle = bit-by-bit running count; plus a length sweep (every length 0..N words × 4 word patterns, all index flavours, all positions) in which every returned index is compared once more after the NEXT bitmap's indexes have been built (an index must not change because another one is built), 195 bitmaps whose lengths lie within 9 words of every power of two from 2^10 to 2^16 words, and bitmaps of 2^18+3 and 2^20+5 words (complete index, ranks at the ends and around every 1/16th). " +
 			"A case is one (bitmap, position) pair or one (bitmap, index flavour); it is non-trivial when the bitmap has ≥2 words, at least one 1 and at least one 0. Cases are distinct by construction (product of duplicate-free alphabets).",
 		Assumptions: []string{
 			"64-bit words outside the core/wide alphabets and bitmaps longer than the bound are not enumerated (small-scope: the code's case splits are bit offset mod 64, word parity, left/right 128-bit half)",
@@ -195,6 +195,74 @@ func c01Run(c *mc.Ctx) {
 			e := 3 + 2*64*int64(j.l)
 			c.Count(e, e)
 			c.Add("power_of_two_length_bitmaps", 1)
+		})
+	}
+	// two very long bitmaps (2^18+3 and 2^20+5 words = 2 MiB and 8 MiB): complete index check, ranks at
+	// the first and last 1024 positions and within 64 of every 1/16th of the length (chunk boundaries of
+	// any 2-, 4-, 8- or 16-way split)
+	{
+		type job struct{ l, p int }
+		jobs := []job{{1<<18 + 3, 3}, {1<<18 + 3, 0}, {1<<20 + 5, 3}, {1<<20 + 5, 1}}
+		c.Par(len(jobs), func(ji int) {
+			j := jobs[ji]
+			w := c01SweepBitmap(j.l, j.p)
+			order := int64(4)<<56 | int64(j.l)<<8 | int64(j.p)
+			pre := make([]int32, 0, j.l)
+			n := int32(0)
+			for _, x := range w {
+				pre = append(pre, n)
+				n += int32(bits.OnesCount64(x))
+			}
+			cs := func(i int32) c01Case { return c01Case{I: i, Len: j.l, Pattern: j.p} }
+			i64, p1 := idxRank64(w)
+			i64t, p3 := idxRank64(w, true)
+			i128, p4 := idxRank128(w)
+			if p1 != "" || !eqI32(i64, pre) {
+				c.Fail(order, "IndexRank64", "IndexRank64", cs(0), p1+"(differs)", "(reference)")
+			}
+			if p3 != "" || !eqI32(i64t, append(append([]int32(nil), pre...), n)) {
+				c.Fail(order, "IndexRank64/true", "IndexRank64", cs(0), p3+"(differs)", "(reference)")
+			}
+			if p4 != "" || !eqI32(i128, ref128(pre, n, j.l)) {
+				c.Fail(order, "IndexRank128", "IndexRank128", cs(0), p4+"(differs)", "(reference)")
+			}
+			evals := int64(3)
+			nb := int64(64 * j.l)
+			seen := map[int64]bool{}
+			var pos []int64
+			add := func(lo, hi int64) {
+				for x := lo; x < hi; x++ {
+					if x >= 0 && x < nb && !seen[x] {
+						seen[x] = true
+						pos = append(pos, x)
+					}
+				}
+			}
+			add(0, 1024)
+			add(nb-1024, nb)
+			for k := int64(1); k < 16; k++ {
+				b := int64(j.l) * k / 16 * 64
+				add(b-64, b+64)
+				b2 := (int64(j.l)/16*k + 0) * 64 // floor(l/16)*k: the other way to cut chunks
+				add(b2-64, b2+64)
+			}
+			if p1 == "" && p4 == "" {
+				for _, x := range pos {
+					i := int32(x)
+					want := pre[i>>6] + int32(bits.OnesCount64(w[i>>6]&(1<<uint(i&63)-1)))
+					bit := int32(w[i>>6] >> uint(i&63) & 1)
+					if a, b, pp := rank64(w, i64, i); pp || a != want || b != bit {
+						c.Fail(order, "Rank64", "Rank64", cs(i), "", "")
+					}
+					if a, b, pp := rank128(w, i128, i); pp || a != want || b != bit {
+						c.Fail(order, "Rank128", "Rank128", cs(i), "", "")
+					}
+				}
+			}
+			evals += 2 * int64(len(pos))
+			c.Count(evals, evals)
+			c.Expect(evals)
+			c.Add("very_long_bitmaps", 1)
 		})
 	}
 	c.Par(len(shards), func(si int) {
